@@ -12,6 +12,7 @@ import (
 	"bufio"
 	"crypto/sha256"
 	"encoding/base64"
+	"encoding/hex"
 	"fmt"
 	"io"
 	"log/slog"
@@ -116,6 +117,8 @@ type c05Req struct {
 	rawBody   string      // appended verbatim to the body (malformed pairs)
 	authRaw   string      // Authorization: Basic base64(authRaw), when hasBasic
 	hasBasic  bool
+	rawHeader string // Authorization header value sent verbatim (wire-level shapes), when hasRaw
+	hasRaw    bool
 	assertion string // the one assertion string of the request (client_assertion or the jwt-bearer grant assertion)
 }
 
@@ -144,7 +147,92 @@ func (q *c05Req) build() *http.Request {
 	if q.hasBasic {
 		r.Header.Set("Authorization", "Basic "+base64.StdEncoding.EncodeToString([]byte(q.authRaw)))
 	}
+	if q.hasRaw {
+		r.Header.Set("Authorization", q.rawHeader)
+	}
 	return r
+}
+
+// c05WireHeader builds an Authorization header value by hand: what an onlooker sees on the wire, in the legal and the
+// near-legal spellings of RFC 7617 / RFC 6749 2.3.1 (scheme case, spaces, base64 alphabet / padding, colons, empty components,
+// form-urlencoding of the components, bytes that are no text)
+func c05WireHeader(r *hx.Rand, id, sec string) (shape, header string) {
+	pctAll := func(s string) string {
+		var b strings.Builder
+		for i := 0; i < len(s); i++ {
+			fmt.Fprintf(&b, "%%%02X", s[i])
+		}
+		return b.String()
+	}
+	pctFirst := func(s string) string {
+		if s == "" {
+			return s
+		}
+		return fmt.Sprintf("%%%02x", s[0]) + s[1:]
+	}
+	std := func(raw string) string { return base64.StdEncoding.EncodeToString([]byte(raw)) }
+	good := url.QueryEscape(id) + ":" + url.QueryEscape(sec)
+	shape = hx.Pick(r, "plus-is-space", "plus-is-space", "space-padded-secret", "space-padded-secret", "escaped-all", "escaped-first", "colon-in-secret", "empty-pass", "empty-user",
+		"plain", "escaped-all", "escaped-first", "plus-is-space", "colon-in-secret", "colon-escaped", "empty-user", "empty-pass", "only-colon",
+		"no-colon", "non-utf8-user", "non-utf8-pass", "non-utf8-escaped", "scheme-lower", "scheme-upper", "scheme-mixed", "two-spaces", "trailing-space",
+		"leading-space", "tab", "bad-base64", "urlsafe-base64", "no-padding", "bearer-scheme", "scheme-only", "empty-payload")
+	switch shape {
+	case "plain":
+		header = "Basic " + std(good)
+	case "escaped-all":
+		header = "Basic " + std(pctAll(id)+":"+pctAll(sec))
+	case "escaped-first":
+		header = "Basic " + std(pctFirst(id)+":"+pctFirst(sec))
+	case "plus-is-space":
+		header = "Basic " + std(good+"+")
+	case "space-padded-secret":
+		header = "Basic " + std(url.QueryEscape(id)+":"+hx.Pick(r, "%20", "+", "%09")+url.QueryEscape(sec)+hx.Pick(r, "%20", "+", "%0A", ""))
+	case "colon-in-secret":
+		header = "Basic " + std(good+":x")
+	case "colon-escaped":
+		header = "Basic " + std(good+"%3Ax")
+	case "empty-user":
+		header = "Basic " + std(":"+url.QueryEscape(sec))
+	case "empty-pass":
+		header = "Basic " + std(url.QueryEscape(id)+":")
+	case "only-colon":
+		header = "Basic " + std(":")
+	case "no-colon":
+		header = "Basic " + std(url.QueryEscape(id)+url.QueryEscape(sec))
+	case "non-utf8-user":
+		header = "Basic " + std(id+"\xff:"+url.QueryEscape(sec))
+	case "non-utf8-pass":
+		header = "Basic " + std(url.QueryEscape(id)+":"+sec+"\xfe\xff")
+	case "non-utf8-escaped":
+		header = "Basic " + std(hx.Pick(r, url.QueryEscape(id)+"%FF:"+url.QueryEscape(sec), url.QueryEscape(id)+":"+url.QueryEscape(sec)+"%c3"))
+	case "scheme-lower":
+		header = "basic " + std(good)
+	case "scheme-upper":
+		header = "BASIC " + std(good)
+	case "scheme-mixed":
+		header = "bAsIc " + std(good)
+	case "two-spaces":
+		header = "Basic  " + std(good)
+	case "trailing-space":
+		header = "Basic " + std(good) + " "
+	case "leading-space":
+		header = " Basic " + std(good)
+	case "tab":
+		header = "Basic\t" + std(good)
+	case "bad-base64":
+		header = "Basic " + hx.Pick(r, "!!!!", std(good)+"*", "=="+std(good))
+	case "urlsafe-base64":
+		header = "Basic " + base64.URLEncoding.EncodeToString([]byte(id+"?>:"+sec+"?>"))
+	case "no-padding":
+		header = "Basic " + base64.RawStdEncoding.EncodeToString([]byte(good))
+	case "bearer-scheme":
+		header = "Bearer " + std(good)
+	case "scheme-only":
+		header = hx.Pick(r, "Basic", "Basic ")
+	case "empty-payload":
+		header = "Basic " + std("")
+	}
+	return shape, header
 }
 
 func (q *c05Req) setBody(k, v string) {
@@ -186,6 +274,19 @@ func (q *c05Req) describe(sy *symbols, l *hx.Line) {
 	valuesKV(l, "pf.", r.PostForm)
 	u, p, ok := r.BasicAuth()
 	l.B("basic", ok)
+	// the bytes an onlooker sees: the Authorization header itself; and (hex, because they need not be text) what net/http and
+	// url.QueryUnescape made of it - the driver parses the header itself (Spec/C05Wire.lean) and compares
+	_, hdrSet := r.Header["Authorization"]
+	l.B("hdr.set", hdrSet).S("hdr", r.Header.Get("Authorization"))
+	if ok {
+		l.S("w.u", hex.EncodeToString([]byte(u))).S("w.p", hex.EncodeToString([]byte(p)))
+		if uu, err := url.QueryUnescape(u); err == nil {
+			l.S("w.uu", hex.EncodeToString([]byte(uu)))
+		}
+		if pp, err := url.QueryUnescape(p); err == nil {
+			l.S("w.pu", hex.EncodeToString([]byte(pp)))
+		}
+	}
 	// descriptive only (known-finding matching): the secret-type credential of the request carries no secret
 	nosecret := false
 	if ok {
@@ -470,6 +571,58 @@ func c05Stream(r *hx.Rand, tier string, n int, w *bufio.Writer) map[string]int {
 				target.c.Grants = keep
 			}
 		}
+		// more registration changes after the material exists (round 4): the target's secret is rotated or its authentication method is
+		// changed; the request that follows presents the credential of the OLD registration (half of the time) or of the current one.
+		// The line (and so the monitor and the model) carries the CURRENT registration only.
+		regChange, presentOld := "none", false
+		oldSecret, oldAuth := target.c.Secret, target.c.Auth
+		if r.Chance(18) {
+			if target.c.Secret != "" && r.Chance(50) {
+				regChange = "secret-rotated"
+				target.c.Secret = target.c.Secret + "-rotated"
+			} else {
+				var to []oidc.AuthMethod
+				switch target.c.Auth {
+				case oidc.AuthMethodBasic:
+					to = []oidc.AuthMethod{oidc.AuthMethodPost, oidc.AuthMethodPrivateKeyJWT, oidc.AuthMethodNone}
+				case oidc.AuthMethodPost:
+					to = []oidc.AuthMethod{oidc.AuthMethodBasic, oidc.AuthMethodPrivateKeyJWT, oidc.AuthMethodNone}
+				case oidc.AuthMethodNone:
+					to = []oidc.AuthMethod{oidc.AuthMethodPrivateKeyJWT}
+				case oidc.AuthMethodPrivateKeyJWT:
+					to = []oidc.AuthMethod{oidc.AuthMethodNone}
+				}
+				if target.c.Secret != "" && (target.c.Auth == oidc.AuthMethodNone || target.c.Auth == oidc.AuthMethodPrivateKeyJWT) {
+					to = append(to, oidc.AuthMethodBasic)
+				}
+				if len(to) > 0 {
+					target.c.Auth = to[r.Intn(len(to))]
+					regChange = "method-changed"
+					l.S("reg.from", string(oldAuth)).S("reg.to", string(target.c.Auth))
+				}
+			}
+			presentOld = regChange != "none" && r.Chance(50)
+			stats["reg-change-"+regChange]++
+			if presentOld {
+				stats["reg-change-old-credential-presented"]++
+			}
+		}
+		l.S("reg.change", regChange).B("reg.old", presentOld)
+		// after a registration change the request mostly authenticates in the plain way of the (old or current) registration, so
+		// that the change itself decides the outcome
+		forceRight := regChange != "none" && !split && r.Chance(60)
+		presAuth := func(fc *flowClient) oidc.AuthMethod {
+			if presentOld && fc == target {
+				return oldAuth
+			}
+			return fc.c.Auth
+		}
+		presSecret := func(fc *flowClient) string {
+			if presentOld && fc == target {
+				return oldSecret
+			}
+			return fc.c.Secret
+		}
 		clientsKV(l, cls)
 
 		// ---- the presentation under test
@@ -514,14 +667,15 @@ func c05Stream(r *hx.Rand, tier string, n int, w *bufio.Writer) map[string]int {
 			if q.assertion != "" {
 				q.body = append(q.body, [2]string{"assertion", q.assertion})
 			}
-		} else if cross {
+		} else if cross && !forceRight {
 			// ---- every field drawn on its own
-			id, sec := presenter.c.ID, presenter.c.Secret
+			id, sec := presenter.c.ID, presSecret(presenter)
 			akey, akid := presenter.key, presenter.kid
 			if akey == nil {
 				akey, akid = pk.key, pk.kid // an assertion naming a client that has no registered key
 			}
-			xHdr := hx.Pick(r, "none", "none", "none", "none", "none", "none", "none", "none", "good", "good", "good", "wrong", "wrong", "wrong", "empty", "empty", "empty", "empty", "malformed", "malformed")
+			xHdr := hx.Pick(r, "none", "none", "none", "none", "none", "none", "none", "none", "good", "good", "good", "wrong", "wrong", "wrong", "empty", "empty", "empty", "empty", "malformed", "malformed",
+				"wire", "wire", "wire", "wire", "wire", "wire")
 			xID := hx.Pick(r, "none", "none", "own", "own", "own", "own", "own", "foreign", "foreign", "unknown")
 			xSec := hx.Pick(r, "none", "none", "empty", "good", "wrong")
 			xAs := hx.Pick(r, "none", "none", "none", "none", "none", "none", "none", "none", "empty", "empty", "empty", "good", "good", "good", "good", "forged", "forged", "other", "other", "other")
@@ -549,7 +703,7 @@ func c05Stream(r *hx.Rand, tier string, n int, w *bufio.Writer) map[string]int {
 			}
 			if split {
 				xHdr, xAs, xAt = "good", "none", "none"
-				if presenter.c.Auth == oidc.AuthMethodPrivateKeyJWT {
+				if presAuth(presenter) == oidc.AuthMethodPrivateKeyJWT {
 					xHdr, xAs, xAt = "none", "good", "jwt-bearer"
 				}
 				xID = hx.Pick(r, "foreign", "foreign", "foreign", "unknown")
@@ -570,6 +724,12 @@ func c05Stream(r *hx.Rand, tier string, n int, w *bufio.Writer) map[string]int {
 				q.basic(id, "")
 			case "malformed":
 				q.hasBasic, q.authRaw = true, hx.Pick(r, id+"%zz:"+url.QueryEscape(sec), url.QueryEscape(id)+":"+sec+"%", id+"%2", id)
+			case "wire":
+				var shape string
+				shape, q.rawHeader = c05WireHeader(r, id, sec)
+				q.hasRaw = true
+				l.S("x.wire", shape)
+				stats["x-wire-"+shape]++
 			}
 			switch xID {
 			case "own":
@@ -635,7 +795,10 @@ func c05Stream(r *hx.Rand, tier string, n int, w *bufio.Writer) map[string]int {
 			if prePres != "right" && r.Chance(70) {
 				pres = prePres // the presentation the material was prepared for
 			}
-			id, sec := presenter.c.ID, presenter.c.Secret
+			if forceRight {
+				pres = "right"
+			}
+			id, sec := presenter.c.ID, presSecret(presenter)
 			setAssertion := func(a, typ string) {
 				q.assertion = a
 				q.body = append(q.body, [2]string{"client_assertion", a})
@@ -649,7 +812,7 @@ func c05Stream(r *hx.Rand, tier string, n int, w *bufio.Writer) map[string]int {
 			}
 			switch pres {
 			case "right":
-				switch presenter.c.Auth {
+				switch presAuth(presenter) {
 				case oidc.AuthMethodNone:
 					q.body = append(q.body, [2]string{"client_id", id})
 				case oidc.AuthMethodPrivateKeyJWT:
@@ -861,7 +1024,8 @@ func c05Stream(r *hx.Rand, tier string, n int, w *bufio.Writer) map[string]int {
 			q2 := &c05Req{path: "/oauth/token", body: [][2]string{{"grant_type", gDevice}, {"device_code", dc}}}
 			poller := byID[actor]
 			switch {
-			case poller == nil || poller.c.Auth == oidc.AuthMethodNone:
+			case poller == nil || poller.c.Auth == oidc.AuthMethodNone || (poller.c.Auth == oidc.AuthMethodPrivateKeyJWT && poller.key == nil):
+				// (a client switched to private_key_jwt that has no registered key cannot authenticate: bare id)
 				q2.body = append(q2.body, [2]string{"client_id", actor})
 			case poller.c.Auth == oidc.AuthMethodPrivateKeyJWT:
 				q2.assertion = mkAssertion(poller.key, poller.kid, actor, nowS-5, nowS+300)
